@@ -381,7 +381,7 @@ func checkC04(c *Ctx) {
 	c.rule("C04.b", "a refused literal is drained, known synchronising, or the connection is terminated", 8)
 	c.rule("C04.c", "continuation requests only for an accepted synchronising literal, IDLE and AUTHENTICATE after their gates", 3)
 	c.rule("C04.d", "every response encoder is ended exactly once; nothing else reaches the connection's writer", 25)
-	c.rule("C04.e", "the command line is discarded before the completion is written", 2)
+	c.rule("C04.e", "the command line (including a trailing non-synchronising literal and over-long continuation lines) is discarded before the next command is read", 5)
 	c.rule("C04.L1", "lemma L1: a Decoder.Expect* method that returns false has recorded a decoder error", 20)
 	ruleL1(c, "C04.L1")
 	c.assume("an I/O error returned by a tagged writer means the connection is dead; a second write attempt is not counted as a second completion")
@@ -565,9 +565,12 @@ func checkC04(c *Ctx) {
 	})
 
 	ruleLiteralRefusal(c, "C04.b")
+	ruleNoFallbackAfterLiteral(c, "C04.b")
 	ruleContReq(c, "C04.c")
 	ruleEncoderPairing(c, "C04.d")
 
+	ruleDiscardSkipsLiterals(c, "C04.e")
+	ruleLongLineDrained(c, "C04.e")
 	// (e) DiscardLine before any completion / return after dispatch
 	gf := mustFlow(readCommand, facts{}, func(f facts, i ssa.Instruction) facts {
 		if call, ok := i.(ssa.CallInstruction); ok && isExtMethod(calleeObj(call), modPath+"/internal/imapwire", "Decoder", "DiscardLine") {
@@ -1263,4 +1266,175 @@ func ruleTransferClose(c *Ctx, rule, key string, fr fieldRef, end *ssa.Function)
 	}
 	c.check(okAll && n > 0, rule, fnKey(closeFn)+":ends encoder", closeFn.Pos(), "Close ends the encoder on every path except the already-closed error", "Close has a path that does not end the encoder")
 	return true
+}
+
+// ruleNoFallbackAfterLiteral: once Decoder.Literal has failed with the decoder
+// in its error state (refused or unreadable literal), no alternative production
+// is tried on the same bytes.
+func ruleNoFallbackAfterLiteral(c *Ctx, rule string) {
+	p := c.P
+	n := 0
+	for _, fn := range p.SrcFuncs("internal/imapwire") {
+		hasLiteral := false
+		allInstrs(fn, func(i ssa.Instruction) {
+			if call, ok := i.(ssa.CallInstruction); ok && callKey(call) == "(*Decoder).Literal" {
+				hasLiteral = true
+			}
+		})
+		if !hasLiteral {
+			continue
+		}
+		gf := mustFlow(fn, facts{}, nil, func(f facts, b *ssa.BasicBlock, s int) facts {
+			add := valueEdgeFacts(b, s)
+			for _, a := range edgeAtoms(b, s) {
+				if r, ok := loadedField(a.V); ok && r.is("Decoder", "err") && a.Nil == 1 {
+					add = append(add, "decoder-ok")
+				}
+			}
+			return f.with(add...)
+		})
+		allInstrs(fn, func(i ssa.Instruction) {
+			call, ok := i.(ssa.CallInstruction)
+			if !ok || !isDecoderMethodCall(call) {
+				return
+			}
+			name := calleeObj(call).Name()
+			if name == "Literal" || name == "Err" || name == "returnErr" || name == "Expect" {
+				return
+			}
+			fs, reach := gf.at(i)
+			if !reach || !fs.has("fail:(*Decoder).Literal") {
+				return
+			}
+			n++
+			c.check(fs.has("decoder-ok"), rule, fmt.Sprintf("%s: %s after a failed Literal", fnKey(fn), name), i.Pos(),
+				"tried only when the decoder is not in its error state (the bytes were not a literal at all)",
+				"after a literal was announced and refused the decoder goes on to parse the following bytes with "+name+": for a synchronising literal the server blocks instead of answering and then swallows the client's next command")
+		})
+	}
+	if n == 0 {
+		c.okTrivial(rule, "no alternative production follows a Literal attempt", token.NoPos, "0 sites")
+	}
+}
+
+// ruleDiscardSkipsLiterals: DiscardLine can skip the data of a trailing
+// non-synchronising literal (a counted discard of the decoder's reader, in a loop).
+func ruleDiscardSkipsLiterals(c *Ctx, rule string) {
+	p := c.P
+	fn := p.Func("internal/imapwire", "Decoder", "DiscardLine")
+	if fn == nil {
+		c.unresolvedRoot("(*Decoder).DiscardLine")
+		return
+	}
+	counted, looped := false, false
+	allInstrs(fn, func(i ssa.Instruction) {
+		call, ok := i.(*ssa.Call)
+		if !ok {
+			return
+		}
+		o := calleeObj(call)
+		if o == nil || o.Pkg() == nil {
+			return
+		}
+		if (o.Pkg().Path() == "io" && o.Name() == "CopyN") || isExtMethod(o, "bufio", "Reader", "Discard") {
+			for _, a := range call.Call.Args {
+				v := a
+				if mi, ok := v.(*ssa.MakeInterface); ok {
+					v = mi.X
+				}
+				if r, ok := loadedField(v); ok && r.is("Decoder", "r") {
+					counted = true
+					looped = reaches2(call.Block(), call.Block())
+				}
+			}
+		}
+	})
+	c.check(counted && looped, rule, "DiscardLine skips literal data", fn.Pos(), "a counted discard of the decoder's reader, repeated until the command ends",
+		"DiscardLine only skips to the next CRLF: when a command fails before its {N+} literal was parsed, the literal data is left in the stream and parsed as commands")
+}
+
+// ruleLongLineDrained: every ReadLine of a continuation line in the server
+// either knows the line was complete, drains its remainder, or fails with an
+// I/O error.
+func ruleLongLineDrained(c *Ctx, rule string) {
+	p := c.P
+	isReadLine := func(call ssa.CallInstruction) bool {
+		return isExtMethod(calleeObj(call), "bufio", "Reader", "ReadLine")
+	}
+	drains := map[*ssa.Function]bool{}
+	for _, fn := range p.SrcFuncs("imapserver") {
+		allInstrs(fn, func(i ssa.Instruction) {
+			if call, ok := i.(ssa.CallInstruction); ok && isReadLine(call) && reaches2(i.Block(), i.Block()) {
+				// a loop around ReadLine whose continuation depends on isPrefix
+				drains[fn] = true
+			}
+		})
+	}
+	n := 0
+	for _, fn := range p.SrcFuncs("imapserver") {
+		var sites []ssa.Instruction
+		allInstrs(fn, func(i ssa.Instruction) {
+			if call, ok := i.(ssa.CallInstruction); ok && isReadLine(call) {
+				sites = append(sites, i)
+			}
+		})
+		if len(sites) == 0 || (drains[fn] && len(fn.Params) > 0 && fn.Signature.Results().Len() == 0) {
+			continue // the drain helper itself
+		}
+		gf := mustFlow(fn, facts{}, func(f facts, i ssa.Instruction) facts {
+			if call, ok := i.(ssa.CallInstruction); ok {
+				if cal := staticCallee(call); cal != nil && drains[cal] && cal != fn {
+					return f.with("drained")
+				}
+				if isReadLine(call) {
+					// a new line is read: earlier knowledge is about the previous line
+					return f.without(func(s string) bool {
+						return s == "drained" || strings.Contains(s, "(*Reader).ReadLine") || s == "io-error"
+					})
+				}
+			}
+			return f
+		}, func(f facts, b *ssa.BasicBlock, s int) facts {
+			add := valueEdgeFacts(b, s)
+			for _, a := range edgeAtoms(b, s) {
+				if cl, idx := callOf(a.V); cl != nil && isReadLine(cl) && idx == 2 {
+					if a.Nil == -1 {
+						add = append(add, "io-error")
+					}
+					if a.Op == token.EQL && a.Other != nil {
+						add = append(add, "io-error") // err == io.EOF
+					}
+				}
+			}
+			return f.with(add...)
+		})
+		for _, site := range sites {
+			k := 0
+			for _, ret := range returnsOf(fn) {
+				if !(site.Block() == ret.Block() || reaches(site.Block(), ret.Block())) {
+					continue
+				}
+				fs, reach := gf.at(ret)
+				if !reach {
+					continue
+				}
+				k++
+				n++
+				okRet := fs.has("false#1:(*Reader).ReadLine") || fs.has("drained") || fs.has("io-error")
+				// returns before any line was read on this path (state refusals) carry no ReadLine fact at all
+				if !fs.hasPrefix("true#1:(*Reader).ReadLine") && !fs.hasPrefix("false#1:(*Reader).ReadLine") && !fs.has("io-error") && !fs.has("drained") {
+					// the must-facts do not say a line was read: decide by dominance
+					if !site.Block().Dominates(ret.Block()) {
+						okRet = true
+					}
+				}
+				c.check(okRet, rule, fmt.Sprintf("%s: continuation line, return#%d", fnKey(fn), k), ret.Pos(),
+					"the line is known complete, or its remainder was drained, or reading failed",
+					"a return is reachable with only the first part of an over-long continuation line consumed: the rest of that line is parsed as the next command")
+			}
+		}
+	}
+	if n == 0 {
+		c.unresolvedRoot("ReadLine calls in imapserver")
+	}
 }
